@@ -99,3 +99,107 @@ def _default_item(it, iterable, k):
     if isinstance(iterable, SymRange):
         return k
     raise Unsupported(f"loop contract item of {type(iterable).__name__}")
+
+
+class SpecList:
+    """An abstract list: `n` leading elements that are, by the loop invariant, exactly the elements
+    the contract's spec function assigns to indices 0..n-1 (tag names that spec), followed by the
+    concretely known elements appended since.
+
+    Two SpecLists with the same tag and the same n have the same leading elements *by definition*
+    (both denote MAP(spec, range(n))), which is the induction hypothesis of the loop rule.
+    """
+
+    def __init__(self, tag, n, appended=()):
+        self.tag = tag
+        self.n = n
+        self.appended = list(appended)
+
+    def __repr__(self):
+        return f"SpecList({self.tag}, n={self.n}, +{self.appended})"
+
+    def py_getattr(self, it, name):
+        from .values import Builtin
+        if name == "append":
+            return Builtin("SpecList.append", lambda x: self.appended.append(x))
+        raise it.exc("AttributeError", name)
+
+    def py_len(self, it):
+        return self.n + len(self.appended)
+
+    def py_truth(self, it):
+        return (self.n + len(self.appended)) > 0
+
+    def py_class(self, it):
+        return it.builtins["list"]
+
+    def py_eq(self, it, o):
+        if isinstance(o, SpecList) and o.tag == self.tag and len(o.appended) == len(self.appended):
+            return And(sym.eq(self.n, o.n), *[it.py_eq(a, b) for a, b in zip(self.appended, o.appended)])
+        if isinstance(o, list) and not self.appended and not o:
+            return sym.eq(self.n, 0)
+        raise Unsupported("comparison of an abstract list with a different list")
+
+
+class StateLoop:
+    """Loop contract where the state at iteration k is *constructed* (not havocked-and-assumed):
+
+    at(it, k, entry)            -> {var: value at the head of iteration k}; entry = values at loop entry
+    check(it, k, entry, after)  -> obligations relating the state after the body to at(k+1)
+    n(it, iterable, entry)      -> iteration count
+    Works for `for` (item = k for range loops) and `while` loops (test is re-evaluated symbolically
+    and must agree with k < n, which is an obligation).
+    """
+
+    def __init__(self, name, vars, n, at, check, item=None, define=None):
+        self.name = name
+        self.vars = vars
+        self.n = n
+        self.at = at
+        self.check = check
+        self.item = item
+        self.define = define
+
+    def __call__(self, it, node, env):
+        import ast
+        P = it.path
+        is_for = isinstance(node, ast.For)
+        iterable = it.eval(node.iter, env) if is_for else None
+        entry = {v: env.lookup(v) for v in self.vars}
+        n = self.n(it, iterable, entry, env)
+        if self.define:
+            self.define(it, "init", entry)
+        which = P.choose(2, f"loop {self.name}")
+        if which == 0:
+            k = SInt(z3.Int(sym.fresh_name("k")))
+            P.assume(And(k >= 0, k < n))
+            P.inputs[f"{self.name}:k"] = k
+            if self.define:
+                self.define(it, k, entry)
+            st = self.at(it, k, entry)
+            for v, val in st.items():
+                env.vars[v] = val
+            if is_for:
+                it.assign(node.target, self.item(it, iterable, k) if self.item else k, env)
+            else:
+                t = it.truth(it.eval(node.test, env))
+                P.oblige(f"{self.name}/loop test holds while k < n", t, kind="loop-test")
+            try:
+                it.exec_block(node.body, env)
+            except (_Break, _Continue, _Return):
+                raise Unsupported(f"break/continue/return inside contracted loop {self.name}")
+            after = {v: env.lookup(v) for v in self.vars}
+            self.check(it, k, entry, after)
+            raise PathEnd()
+        P.assume(n >= 0)
+        if self.define:
+            self.define(it, None, entry)
+        st = self.at(it, n, entry)
+        for v, val in st.items():
+            env.vars[v] = val
+        if not is_for:
+            t = it.truth(it.eval(node.test, env))
+            P.oblige(f"{self.name}/loop test fails at k = n", Not(t), kind="loop-test")
+        if node.orelse:
+            it.exec_block(node.orelse, env)
+        return None
